@@ -61,6 +61,9 @@ let () = Reg.register "c14.instantiate" (fun inp out ->
     else L [A "ok"; put_nonterms (SL.map (fun ((n, v), _) -> (n, v)) r.Templates.tr_nonterms); put_inputs r.Templates.tr_inputs] in
   let verdict = match lst out with
     | [A "err"] -> "bad:unexpected-error"
+    | [A "ok"; _; _] when not (Templates.inst_checks (nat_of_int 400) m) ->
+      (* the side conditions of the Coq theorem C14_instantiate_correct, evaluated on this model *)
+      "bad:side-conditions-of-the-correctness-theorem-do-not-hold"
     | [A "ok"; nts; _] ->
       let nts = get_nonterms nts in
       let t = SL.length m.m_terms in
